@@ -67,11 +67,13 @@ impl<'i> super::ExecutableInstruction<'i> for Next<'i> {
 
         let result = next_instr.execute(exec_ctx, trace_ctx);
         exec_ctx.scalars.meet_next_after();
-        result?;
 
         // get the same fold state again because of borrow checker
         let fold_state = exec_ctx.scalars.get_iterable_mut(iterator_name)?;
+        // the iterator must point to the element of this iteration again even if the deeper iterations
+        // failed: an xor around this next may catch the error and go on with this iteration
         fold_state.iterable.prev();
+        result?;
         maybe_meet_back_iterator(self, fold_state, trace_ctx)?;
 
         Ok(())
